@@ -1,7 +1,168 @@
+// C14 / C16: materials, shader packages and the auxiliary asset decoders.
 use crate::State;
+use crate::guarded;
 use crate::util::*;
-use serde_json::Value;
+use serde_json::{Value, json};
 
-pub fn run(_st: &mut State, op: &str, _cmd: &Value) -> Value {
-    toolerror(&format!("unknown op {op}"))
+/// Fields that the library keeps private are read from the Debug rendering (numbers only).
+fn debug_numbers(s: &str) -> Vec<String> {
+    let mut out = vec![];
+    let mut cur = String::new();
+    for c in s.chars() {
+        if c.is_ascii_digit() || c == '.' || c == '-' || c == 'e' || c == 'E' || c == '+' {
+            cur.push(c);
+        } else {
+            if cur.chars().any(|x| x.is_ascii_digit()) && !cur.starts_with('e') && !cur.starts_with('E') {
+                out.push(cur.clone());
+            }
+            cur.clear();
+        }
+    }
+    if cur.chars().any(|x| x.is_ascii_digit()) {
+        out.push(cur);
+    }
+    out
+}
+
+fn half_slot(f: f32) -> Value {
+    f32bits(f)
+}
+
+fn int_slot(n: u32) -> Value {
+    w32(n)
+}
+
+fn mtrl(b: &[u8]) -> Value {
+    use physis::mtrl::*;
+    let Some(m) = Material::from_existing(b) else { return none(); };
+    let table = match &m.color_table {
+        None => json!({"k": "none"}),
+        Some(ColorTable::LegacyColorTable(t)) => json!({"k": "legacy", "rows": t.rows.iter().map(|r| {
+            let mut v = vec![];
+            for x in r.diffuse_color { v.push(half_slot(x)); }
+            v.push(half_slot(r.specular_strength));
+            for x in r.specular_color { v.push(half_slot(x)); }
+            v.push(half_slot(r.gloss_strength));
+            for x in r.emissive_color { v.push(half_slot(x)); }
+            v.push(int_slot(r.tile_set as u32));
+            for x in r.material_repeat { v.push(half_slot(x)); }
+            for x in r.material_skew { v.push(half_slot(x)); }
+            Value::Array(v)
+        }).collect::<Vec<Value>>()}),
+        Some(ColorTable::DawntrailColorTable(t)) => json!({"k": "dawntrail", "rows": t.rows.iter().map(|r| {
+            let mut v = vec![];
+            for x in r.diffuse_color { v.push(half_slot(x)); }
+            v.push(half_slot(r.unknown1));
+            for x in r.specular_color { v.push(half_slot(x)); }
+            v.push(half_slot(r.unknown2));
+            for x in r.emissive_color { v.push(half_slot(x)); }
+            for x in [r.unknown3, r.sheen_rate, r.sheen_tint, r.sheen_aperture, r.unknown4, r.roughness, r.unknown5, r.metalness,
+                      r.anisotropy, r.unknown6, r.sphere_mask, r.unknown7, r.unknown8] { v.push(half_slot(x)); }
+            v.push(int_slot(r.shader_index as u32));
+            v.push(int_slot(r.tile_set as u32));
+            v.push(half_slot(r.tile_alpha));
+            v.push(int_slot(r.sphere_index as u32));
+            for x in r.material_repeat { v.push(half_slot(x)); }
+            for x in r.material_skew { v.push(half_slot(x)); }
+            Value::Array(v)
+        }).collect::<Vec<Value>>()}),
+        Some(ColorTable::OpaqueColorTable(_)) => json!({"k": "opaque"}),
+    };
+    let dye = match &m.color_dye_table {
+        None => json!({"k": "none"}),
+        Some(ColorDyeTable::LegacyColorDyeTable(t)) => json!({"k": "legacy", "rows": t.rows.iter().map(|r| {
+            json!([r.template, r.diffuse, r.specular, r.emissive, r.gloss, r.specular_strength])
+        }).collect::<Vec<Value>>()}),
+        Some(ColorDyeTable::DawntrailColorDyeTable(t)) => json!({"k": "dawntrail", "rows": t.rows.iter().map(|r| {
+            json!([r.template, r.channel, r.diffuse, r.specular, r.emissive, r.scalar3, r.metalness, r.roughness, r.sheen_rate,
+                   r.sheen_tint_rate, r.sheen_aperture, r.anisotropy, r.sphere_map_index, r.sphere_map_mask])
+        }).collect::<Vec<Value>>()}),
+        Some(ColorDyeTable::OpaqueColorDyeTable(_)) => json!({"k": "opaque"}),
+    };
+    // Constant { id, num_values, values: [f32; 4] } and Sampler { texture_usage, flags, texture_index, .. } are private
+    let constants: Vec<Value> = m.constants.iter().map(|c| {
+        let n = debug_numbers(&format!("{c:?}"));
+        let id: u32 = n[0].parse().unwrap_or(0);
+        let nv: u32 = n[1].parse().unwrap_or(0);
+        let vals: Vec<Value> = n[2..6].iter().map(|x| f32bits(x.parse::<f32>().unwrap_or(0.0))).collect();
+        json!({"id": w32(id), "n": nv, "values": vals})
+    }).collect();
+    let samplers: Vec<Value> = m.samplers.iter().map(|s| {
+        let d = format!("{s:?}");
+        let usage = d.split("texture_usage: ").nth(1).and_then(|x| x.split(',').next()).unwrap_or("").to_string();
+        let n = debug_numbers(d.split("flags: ").nth(1).unwrap_or(""));
+        json!({"usage": usage, "flags": w32(n[0].parse().unwrap_or(0)), "texture": n[1].parse::<u32>().unwrap_or(0)})
+    }).collect();
+    some(json!({"shpk": sbytes(&m.shader_package_name),
+                "textures": m.texture_paths.iter().map(|t| sbytes(t)).collect::<Vec<Value>>(),
+                "keys": m.shader_keys.iter().map(|k| json!([w32(k.category), w32(k.value)])).collect::<Vec<Value>>(),
+                "constants": constants, "samplers": samplers, "table": table, "dye": dye}))
+}
+
+fn shpk(b: &[u8], selectors: &Value) -> Value {
+    use physis::shpk::*;
+    let Some(p) = ShaderPackage::from_existing(b) else { return none(); };
+    let params = |v: &Vec<ResourceParameter>| -> Value {
+        Value::Array(v.iter().map(|r| json!({"name": sbytes(&r.name), "slot": r.slot})).collect())
+    };
+    let shader = |s: &Shader| -> Value {
+        json!({"scalar": params(&s.scalar_parameters), "resource": params(&s.resource_parameters), "uav": params(&s.uav_parameters),
+               "texture": params(&s.texture_parameters), "extra": bytes(&s.additional_data), "code": bytes(&s.bytecode)})
+    };
+    let keys = |v: &Vec<Key>| -> Value { Value::Array(v.iter().map(|k| json!([w32(k.id), w32(k.default_value)])).collect()) };
+    let node = |n: &Node| -> Value {
+        json!({"selector": w32(n.selector), "pass_indices": n.pass_indices.to_vec(),
+               "sys": n.system_keys.iter().map(|x| w32(*x)).collect::<Vec<Value>>(),
+               "scene": n.scene_keys.iter().map(|x| w32(*x)).collect::<Vec<Value>>(),
+               "mat": n.material_keys.iter().map(|x| w32(*x)).collect::<Vec<Value>>(),
+               "sub": n.subview_keys.iter().map(|x| w32(*x)).collect::<Vec<Value>>(),
+               "passes": n.passes.iter().map(|ps| {
+                   let d = debug_numbers(&format!("{ps:?}"));
+                   json!([w32(d[0].parse().unwrap_or(0)), w32(d[1].parse().unwrap_or(0)), w32(d[2].parse().unwrap_or(0))])
+               }).collect::<Vec<Value>>()})
+    };
+    let found: Vec<Value> = selectors.as_array().cloned().unwrap_or_default().iter().map(|s| {
+        let sel = get_w32(s);
+        opt(p.find_node(sel), |n| w32(n.selector))
+    }).collect();
+    some(json!({"vs": p.vertex_shaders.iter().map(shader).collect::<Vec<Value>>(),
+                "ps": p.pixel_shaders.iter().map(shader).collect::<Vec<Value>>(),
+                "mat_params": p.material_parameters.iter().map(|m| {
+                    let d = debug_numbers(&format!("{m:?}"));
+                    json!([w32(d[0].parse().unwrap_or(0)), d[1].parse::<u32>().unwrap_or(0), d[2].parse::<u32>().unwrap_or(0)])
+                }).collect::<Vec<Value>>(),
+                "mat_params_size": p.material_parameters_size,
+                "sys_keys": keys(&p.system_keys), "scene_keys": keys(&p.scene_keys), "mat_keys": keys(&p.material_keys),
+                "sub": [w32(p.sub_view_key1_default), w32(p.sub_view_key2_default)],
+                "nodes": p.nodes.iter().map(node).collect::<Vec<Value>>(), "found": found}))
+}
+
+pub fn run(_st: &mut State, op: &str, cmd: &Value) -> Value {
+    match op {
+        "assets.mtrl" => {
+            let b = get_bytes(&cmd["bytes"]);
+            guarded(|| value(mtrl(&b)))
+        }
+        "assets.shpk" => {
+            let b = get_bytes(&cmd["bytes"]);
+            guarded(|| value(shpk(&b, &cmd["selectors"])))
+        }
+        "assets.selector" => {
+            use physis::shpk::ShaderPackage;
+            let lists: Vec<Vec<u32>> = cmd["lists"].as_array().cloned().unwrap_or_default().iter()
+                .map(|l| l.as_array().cloned().unwrap_or_default().iter().map(get_w32).collect()).collect();
+            guarded(|| {
+                let single: Vec<Value> = lists.iter().map(|l| w32(ShaderPackage::build_selector(l))).collect();
+                let all = if lists.len() >= 4 {
+                    w32(ShaderPackage::build_selector_from_all_keys(&lists[0], &lists[1], &lists[2], &lists[3]))
+                } else { w32(0) };
+                let from_keys = if lists.len() >= 4 {
+                    let s: Vec<u32> = lists.iter().map(|l| ShaderPackage::build_selector(l)).collect();
+                    w32(ShaderPackage::build_selector_from_keys(s[0], s[1], s[2], s[3]))
+                } else { w32(0) };
+                value(json!({"single": single, "all": all, "from_keys": from_keys}))
+            })
+        }
+        _ => toolerror(&format!("unknown op {op}")),
+    }
 }
